@@ -45,7 +45,11 @@ MANIFEST = {
             'path is that node, leaves none, the cookie must decode to the '
             'expanded set, and following a link must change the set by '
             'exactly that node (collapse also forgets its descendants).  '
-            'The codec family round-trips states of every compressed length '
+            'From every reachable state every link printed on some other '
+            'page (a stale window) is clicked once: page, links and cookie '
+            'must agree, the clicked node ends expanded resp. collapsed '
+            'with everything below it, and no node off the link path '
+            'changes.  The codec family round-trips states of every compressed length '
             '8..300 bytes.  Shapes of <= 5/6 nodes are also explored with '
             'the assume_children option (a childless node carries an expand '
             'link until it has been expanded).',
@@ -258,6 +262,8 @@ def judge_state(res, ctx, E, out, cookie, via):
     sub = {'shape': ctx['shape'], 'ids': ctx['ids'], 'history': via}
     if ctx.get('opt'):
         sub['opt'] = ctx['opt']
+    if ctx.get('stale'):
+        sub = None      # replay: the whole exploration of this tree
     if isinstance(out, BaseException):
         res.violate('rows', 'render-exc:%s:%s' % (type(out).__name__,
                                                    ctx['ids']),
@@ -359,6 +365,7 @@ def explore(res, ctx, root, literal_depth):
     # phase 1: every history up to literal_depth, literally
     frontier = [(E0, cookie, ev0, [])]
     seen = {E0: (out, cookie)}
+    links_of = {E0: (ev0, [])}
     for d in range(literal_depth):
         nxt = []
         for E, ck, evs, hist in frontier:
@@ -377,6 +384,7 @@ def explore(res, ctx, root, literal_depth):
                                 {'shape': ctx['shape'], 'ids': ctx['ids'],
                                  'history': h2})
                 seen.setdefault(E2, (out2, ck2))
+                links_of.setdefault(E2, (evs2, h2))
                 nxt.append((E2, ck2, evs2, h2))
         frontier = nxt
     # phase 2: breadth-first with deduplication until no new state
@@ -403,9 +411,66 @@ def explore(res, ctx, root, literal_depth):
                             {'shape': ctx['shape'], 'ids': ctx['ids'],
                              'history': h2})
             seen.setdefault(E2, (out2, ck2))
+            links_of.setdefault(E2, (evs2, h2))
             if E2 not in done:
                 queue.append((E2, ck2, evs2, h2))
+    if not opt:
+        transitions += stale_clicks(res, ctx, root, seen, links_of)
     return len(seen), transitions
+
+
+def stale_clicks(res, ctx, root, seen, links_of):
+    """One click, from every reachable state, on every link the tag
+    generated on some *other* page (a page kept open in another window).
+    What such a click does to the nodes on the link's path is not spelled
+    out, so the oracle is the part that is: the page, its links and the
+    cookie agree with each other; an expand link leaves its node expanded
+    and a collapse link leaves it (and everything below it) collapsed; and
+    no node off the link's path changes."""
+    from TreeDisplay.TreeTag import decode_seq
+    every = {}
+    for evs, _h in links_of.values():
+        for ev in evs:
+            every.setdefault((ev[0], ev[1]), ev)
+    n = 0
+    for E, (evs, hist) in links_of.items():
+        here = {(ev[0], ev[1]) for ev in evs}
+        for key, ev in every.items():
+            if key in here:
+                continue
+            kind, ident = key
+            out2, ck2 = step_impl(root, seen[E][1], ev)
+            n += 1
+            h2 = hist + [['stale-' + kind, list(ident)]]
+            sub = None
+            if isinstance(out2, BaseException):
+                judge_state(res, dict(ctx, stale=1), E, out2, ck2, h2)
+                continue
+            try:
+                E2 = frozenset(state_ids(decode_seq(ck2), ctx['root_id']))
+            except CaseTimeout:
+                raise
+            except Exception as e:
+                res.violate('cookie', 'stale:cookie:%s' % ctx['ids'],
+                            {'history': h2, 'exception': repr(e)[:200]}, sub)
+                continue
+            if judge_state(res, dict(ctx, stale=1), E2, out2, ck2, h2) is None:
+                continue
+            path = {tuple(ident[:i]) for i in range(1, len(ident) + 1)}
+            below = descendants(ident, ctx['children'])
+            if kind == 'e':
+                ok = ident in E2 and E <= E2 and E2 <= (E | path)
+            else:
+                ok = ident not in E2 and not (below & E2) and \
+                    (E2 - path) == (E - path - below)
+            if not ok:
+                res.violate('links', 'stale:%s:%s' % (kind, ctx['ids']),
+                            {'expanded_before': sorted(E), 'clicked': [
+                                kind, list(ident)],
+                             'expanded_after': sorted(E2), 'history': h2},
+                            sub)
+    res.count('stale_clicks', n)
+    return n
 
 
 def replay_history(res, ctx, root, history):
@@ -589,11 +654,11 @@ def cases(tier):
 
 def run(case):
     res = Res()
-    if case['fam'] == 'codec':
+    if case.get('fam') == 'codec':
         run_codec(res, case)
         res.outcome = 'codec'
         return res
-    if case['fam'] == 'codec-one':
+    if case.get('fam') == 'codec-one':
         from TreeDisplay.TreeTag import decode_seq
         from TreeDisplay.TreeTag import encode_seq
         if decode_seq(encode_seq(case['state'])) != case['state']:
